@@ -6,7 +6,7 @@ c_MaxNodes == 3
 c_OpSet == {"clamp", "conj", "exp", "had", "index", "kron", "log", "logsoftmax", "mix", "outerprod", "outersum", "polydiff", "polyprod", "rlse", "rprod", "rsum", "sigmoid", "softmax", "softplus", "square", "ssigmoid", "sum"}
 c_LogLeaves == TRUE
 c_EmitMod == 9
-c_EmitRes == 1
+c_EmitRes == 0
 c_LeafKinds == {"const", "ref", "tensor"}
 c_PosLeaves == FALSE
 ====
